@@ -516,3 +516,44 @@ func TestVerifC16ReadWindow(t *testing.T) {
 	}
 	vwriteOut(t, res)
 }
+
+// ---------------------------------------------------------------- observation: client heartbeats and the flow-control bound
+
+// SCTPConn over the real heartbeatClient: its sendLoop writes the heartbeat straight to the stream, past
+// SCTPConn.Write's flow control.  The writer drives the buffered amount to the bound through the stale token,
+// nothing is drained, and the heartbeats keep adding 32 bytes each.
+type hbbRes struct {
+	MaxSeen    uint64 `json:"maxseen"`
+	Heartbeats int    `json:"heartbeats"`
+	WriterSum  uint64 `json:"writer_sum"`
+}
+
+func runHbBypass(intervalMs int, waitMs int) (res hbbRes) {
+	st := newVstream(nil)
+	hc, _ := heartbeatClient(st, &heartbeatConfig{Interval: time.Duration(intervalMs) * time.Millisecond})
+	conn := newSCTPConn(hc, vconn{}, 65535)
+	defer conn.Close()
+	w := func(n int) {
+		k, _ := conn.Write(make([]byte, n))
+		res.WriterSum += uint64(k)
+	}
+	w(131072)
+	w(131000)
+	st.drain(140000) // crosses the threshold downwards: token posted, nobody waits
+	w(131072)
+	w(131072) // has to wait, takes the stale token
+	time.Sleep(time.Duration(waitMs) * time.Millisecond)
+	st.mu.Lock()
+	res.MaxSeen = st.maxSeen
+	for _, b := range st.written {
+		if len(b) == 32 {
+			res.Heartbeats++
+		}
+	}
+	st.mu.Unlock()
+	return
+}
+
+func TestVerifC16HbBypass(t *testing.T) {
+	vwriteOut(t, []hbbRes{runHbBypass(20, 150)})
+}
